@@ -138,6 +138,22 @@ func runC14(c *Ctx) {
 		join := []int{0, 0, 50, 100}[r.Intn(4)]
 		sw := GenScopeWS(r, ScopeCfg{Unique: true, NoMulti: true, NFiles: r.Range(1, 3), Depth: r.Range(2, 4), JoinPct: join})
 		c.Count(fmt.Sprintf("workspaces_line_join_%d_percent", join), 1)
+		// globals defined through the global table (documented as plain globals): _G.x = v, _G["x"] = v, function _G.x() end
+		viaG := map[string]bool{}
+		if r.Bool() {
+			files := sw.FileMap()
+			for fi, f := range sw.Files {
+				a, b, cc := fmt.Sprintf("f%dw9ga", fi), fmt.Sprintf("f%dw9gb", fi), fmt.Sprintf("f%dw9gc", fi)
+				files[f.Rel] = f.Text + fmt.Sprintf("\n_G.%s = 1\n_G[\"%s\"] = 2\nfunction _G.%s(p)\n  return p\nend\n", a, b, cc)
+				viaG[a], viaG[b], viaG[cc] = true, true, true
+			}
+			if sw2, ok := ScopeWSFromFiles(files); ok {
+				sw = sw2
+				c.Count("workspaces_with_globals_defined_through_G", 1)
+			} else {
+				viaG = map[string]bool{}
+			}
+		}
 		c.Eval(1)
 		ws, srv, err := startScopeServer(c, sw, fmt.Sprintf("c14w%d", wi))
 		if err != nil {
@@ -169,6 +185,9 @@ func runC14(c *Ctx) {
 				if len(defs) > 0 {
 					allNames = append(allNames, g)
 				}
+			}
+			for g := range viaG {
+				allNames = append(allNames, g)
 			}
 			sort.Strings(allNames)
 			if len(allNames) == 0 {
@@ -234,6 +253,11 @@ func runC14(c *Ctx) {
 					// with workspace-unique names a global can only share its name with a local through a use inside that
 					// local's own initialiser / for header (which Lua binds to the global): C05-K1's class, not asserted here
 					if len(defs) > 0 && strings.HasPrefix(g, prefix) && !localNames[g] {
+						must[g] = true
+					}
+				}
+				for g := range viaG {
+					if strings.HasPrefix(g, prefix) {
 						must[g] = true
 					}
 				}
@@ -322,7 +346,7 @@ func runC14(c *Ctx) {
 	})
 	c.Finish("generated programs with workspace-unique names; probe statements containing `<prefix>` in one of 20 expression contexts (call argument, operand glued to or spaced from `..`, `+`, `<`, unary operators, table constructor, index, condition, assignment) are inserted (as an unsaved edit of the open, still valid document) at statement "+
 		"boundaries of every block: first statement, right after a declaration, last statement, on the line of `end`, inside nested functions and blocks, end of file; "+
-		"completion (triggerKind 1) right after the prefix must offer every local/parameter/loop variable visible there per R-bind and every workspace global with that prefix, "+
+		"completion (triggerKind 1) right after the prefix must offer every local/parameter/loop variable visible there per R-bind and every workspace global with that prefix (including, in half of the workspaces, globals defined as _G.x = v, _G[`x`] = v and function _G.x() end), "+
 		"and no local that is declared later or in a block not enclosing the cursor. distinct_nontrivial = distinct (document text, cursor) probed", 200)
 }
 
